@@ -29,7 +29,7 @@ Definition io_seq (seed : N) (n : nat) : bytes :=
 Fixpoint stack_mem_targets (k : stack) (tgt : list nat) : list (list nat) :=
   match k with
   | SMem => [tgt]
-  | SReadOnly a | SBasePath _ a | SRegexp _ a => stack_mem_targets a (tgt ++ [0%nat])
+  | SReadOnly a | SBasePath _ a | SRegexp _ a | SFaulty _ a => stack_mem_targets a (tgt ++ [0%nat])
   | SCow a b | SCache _ a b => stack_mem_targets a (tgt ++ [0%nat]) ++ stack_mem_targets b (tgt ++ [1%nat])
   end.
 
